@@ -354,6 +354,12 @@ func (g *histGen) copy() {
 	if g.rng.Intn(6) == 0 {
 		r.B2, r.N2 = r.B, r.N // rewrite in place
 	}
+	if g.rng.Intn(3) == 0 { // the request carries a destination resource (the emulator does not rewrite metadata on copy)
+		r.Up = &UpMeta{CType: g.pick(ctypes[1:])}
+		if g.rng.Intn(2) == 0 {
+			r.Up.Meta = [][2]string{{"copied", "yes"}}
+		}
+	}
 	g.add(r)
 }
 
@@ -529,6 +535,36 @@ func genHist(prop, out, tier string, rng *rand.Rand, oracle string) {
 			}
 		}
 	}
+	if prop == "C02" || prop == "C10" {
+		for _, prog := range siblingPrograms() {
+			for _, mk := range stores() {
+				tasks = append(tasks, Task{mk, "sibling-names", prog, true})
+			}
+		}
+	}
+	if prop == "C10" {
+		// directed: rewrite requests that carry a destination resource, onto a new and onto an existing
+		// (patched) name, then the four places that report the numbers
+		ct := "text/patched"
+		upn := func(n, d string) Req {
+			return Req{Kind: "upload_media", B: "bkt", N: n, CType: "text/plain", Data: []byte(d), CP: noConds}
+		}
+		see := func(n string) []Req {
+			return []Req{{Kind: "get_meta", B: "bkt", N: n}, {Kind: "get_media", B: "bkt", N: n}, {Kind: "list", B: "bkt"}}
+		}
+		for _, up := range []*UpMeta{{CType: "text/x"}, {Meta: [][2]string{{"k", "v"}}}, {CType: "text/y", Meta: [][2]string{{"k", "v"}, {"l", "w"}}}, {}} {
+			prog := []Req{upn("src", "SRC"), upn("old", "OLD"), {Kind: "patch", B: "bkt", N: "old", Patch: &Patch{CType: &ct}, CP: noConds},
+				{Kind: "copy", B: "bkt", N: "src", B2: "bkt", N2: "new", Up: up}}
+			prog = append(prog, see("new")...)
+			prog = append(prog, Req{Kind: "copy", B: "bkt", N: "src", B2: "bkt", N2: "old", Up: up})
+			prog = append(prog, see("old")...)
+			prog = append(prog, Req{Kind: "copy", B: "bkt", N: "src", B2: "bkt", N2: "src", Up: up})
+			prog = append(prog, see("src")...)
+			for _, mk := range stores() {
+				tasks = append(tasks, Task{mk, "copy-with-resource", prog, true})
+			}
+		}
+	}
 	RunTasksNT(sink, tasks, histNontrivial)
 	if prop == "C10" {
 		// every patch is one atomic step: all interleavings (at the yield point between precondition
@@ -552,6 +588,57 @@ func genHist(prop, out, tier string, rng *rand.Rand, oracle string) {
 		genUrls(sink, tier, rng) // URL forms against the model of the four unanchored patterns
 	}
 	sink.Close(fmt.Sprintf("(C15 additionally: every interleaving of a compose with its destination among its sources, and of a copy, with a second writer of the object; C10 additionally: every interleaving of a metadata patch with a second patch, a content write, a delete or a copy onto the same object at the yield point between precondition check and store mutation, both stores, compared step by step with the interleaving model; C02/C11 additionally: uploads, compose and copy without an object name, a resumable session with a wrong declared MD5 finished several times; C02 additionally: decoded request paths - every URL form x bucket x name from pools with traps, plus random fragment concatenations - parsed by the real ParseGcsUrl and compared with the Coq model of the four unanchored patterns; and the round trip of the public form for every (bucket, name) pair) random histories (focus %s) of about %d requests over 2 buckets x %d names x %d payloads, all upload protocols with random chunkings, re-sent ranges, status queries, gzip bodies, wrong/invalid MD5, the three download URL forms, patches incl. read-only fields, listings, compose, copy, deletes, conditions; each program runs on the memory and the file store (names representable as files) and, one in three, on the memory store with trap names; distinct = distinct canonical (program, observation) text; non-trivial = at least one successful content write and one non-empty successful download", prop, length, len(namesRepresentable), len(payloads)), false)
+}
+
+// siblingPrograms: an object whose name differs from a written name only by an ending that file-handling
+// code likes to give its own files (.tmp, ~, .new, .lock, .part, .bak, the sidecar extension inside the
+// name) is an object of its own: writing, patching, copying onto, composing and deleting the plain
+// name leaves it, its metadata and its place in the listing alone
+func siblingPrograms() [][]Req {
+	decor := []string{".tmp", ".emumeta.tmp", ".tmp.tmp", "~", ".new", ".part", ".bak", ".lock", ".swp", ".old", ".1", ".emumeta.bak", ".meta", ".json", ".tmp.emumeta.tmp"}
+	var progs [][]Req
+	for _, base := range []string{"report", "dl/archive.tar"} {
+		up := func(n, d string) Req {
+			return Req{Kind: "upload_multipart", B: "bkt", Up: &UpMeta{Name: n, CType: "text/" + fmt.Sprint(len(n)), Md5: 1, Meta: [][2]string{{"name", n}}}, Data: []byte(d), CP: noConds}
+		}
+		ct := "text/patched"
+		patch := func(n string) Req {
+			return Req{Kind: "patch", B: "bkt", N: n, Patch: &Patch{CType: &ct, HasMeta: true, Meta: [][2]string{{"p", "1"}}}, CP: noConds}
+		}
+		var seed, look []Req
+		for _, d := range decor {
+			seed = append(seed, up(base+d, "sibling "+d))
+			look = append(look, Req{Kind: "get_meta", B: "bkt", N: base + d}, Req{Kind: "get_media", B: "bkt", N: base + d})
+		}
+		dir := ""
+		if i := strings.LastIndex(base, "/"); i >= 0 {
+			dir = base[:i+1]
+		}
+		seed = append(seed, up(dir+"."+base[len(dir):]+".tmp", "dot sibling"), up(dir+"tmp", "tmp itself"))
+		look = append(look, Req{Kind: "get_meta", B: "bkt", N: dir + "." + base[len(dir):] + ".tmp"}, Req{Kind: "get_meta", B: "bkt", N: dir + "tmp"}, Req{Kind: "list", B: "bkt"})
+		// writes of the plain name, each followed by a look at every sibling
+		writes := [][]Req{
+			{up(base, "first")},
+			{up(base, "second, longer"), patch(base)},
+			{{Kind: "copy", B: "bkt", N: base + ".bak", B2: "bkt", N2: base}},
+			{{Kind: "compose", B: "bkt", N: base, Srcs: []Src{{Name: base + ".part", Cond: Raw("")}, {Name: base + ".1", Cond: Raw("")}}, Up: &UpMeta{CType: "x/composed"}, CP: noConds}, patch(base)},
+			{{Kind: "delete", B: "bkt", N: base, CP: noConds}},
+		}
+		for _, w := range writes {
+			prog := append(append(append([]Req{}, seed...), w...), look...)
+			prog = append(prog, Req{Kind: "get_meta", B: "bkt", N: base}, Req{Kind: "get_media", B: "bkt", N: base})
+			progs = append(progs, prog)
+		}
+		// and the other way round: writing the siblings leaves the plain name alone
+		prog := []Req{up(base, "plain"), patch(base)}
+		prog = append(prog, seed...)
+		for _, d := range decor[:4] {
+			prog = append(prog, patch(base+d), Req{Kind: "delete", B: "bkt", N: base + d, CP: noConds})
+		}
+		prog = append(prog, Req{Kind: "get_meta", B: "bkt", N: base}, Req{Kind: "get_media", B: "bkt", N: base}, Req{Kind: "list", B: "bkt"})
+		progs = append(progs, prog)
+	}
+	return progs
 }
 
 // sameSizePrograms: copies and composes between objects of EQUAL size (with and without MD5), onto
